@@ -176,6 +176,9 @@ _add("RegressionTreeBasedAL:rep1", "RegressionTreeBasedAL", {"method": "represen
 # random_state on every query, in a copy
 for _c in ("Clue", "DropQuery", "TypiClust", "ProbCover"):
     _add(f"{_c}:ninit", _c, {"cluster_algo_dict": {"n_init": 1}}, ["pwc"] if _c in ("Clue", "DropQuery") else (None,))
+# more workers than candidates towards the end of a loop; real threads (results do not depend on their schedule:
+# every task works on its own copy of the strategy)
+_add("ParallelWrapper:threads", "ParallelUtilityEstimationWrapper", {"n_jobs": 3, "parallel_dict": {"backend": "threading"}}, ["pwc"], wrap="UncertaintySampling:entropy", batch1_14=True, batch1=True, rows=False)
 _add("SubSamplingWrapper:int", "SubSamplingWrapper", {"max_candidates": 2}, ["pwc"], wrap="UncertaintySampling:lc_cost", batch1_14=True, rows=False)
 
 # strategies that need a mapping from candidates to X (feature-row candidates are refused: MappingError)
